@@ -1,7 +1,330 @@
-//! C19 — correspondence harness (stub; see /verif/AGENT_GUIDE.md).
+//! C19, node level — the chain service's own MMR handling on a real node with forks.
+//!
+//! A real node (`Shared` + chain service, RocksDB) is fed valid blocks built on arbitrary parents by
+//! `node::ChainBuilder` (which computes each block's chain-root extension over a *fresh linear
+//! store of that block's own ancestors*).  The node re-creates its MMR at the fork point over the
+//! uncleaned COLUMN_CHAIN_ROOT_MMR on every reorg (chain/src/verify.rs); if a stale node were read,
+//! `BlockExtensionVerifier` would reject a valid block or the served roots would differ.
+//!
+//! Protocol (model side: `ckbmodel_c19 C19 node`, lean/CkbVerif/Driver/C19.lean):
+//!   blk <id> <parent>            -> ok          valid block on any known parent: must be accepted
+//!   bad <id> <parent>            -> rejected    same, first byte of the committed root flipped
+//!   main <id,id,..>              -> root <term> the node's main chain (block 1..tip; genesis = L0),
+//!                                               root = Snapshot::chain_root_mmr(tip).get_root()
+//!   rootat <n>                   -> root <term> Snapshot::chain_root_mmr(n).get_root()
+//!   ext <n>                      -> ext <term>  main-chain block n commits the root over blocks 0..n-1
+//!   proof <n> <idx,..>           -> proof <size> <term;..>   chain_root_mmr(n).gen_proof(..)
+//! A block id encodes its number: id % 10000.
 use crate::common::*;
+use crate::node::*;
+#[path = "../../hcore/src/c19.rs"]
+mod core19;
+use ckb_merkle_mountain_range::{leaf_index_to_mmr_size, leaf_index_to_pos, Merge};
+use ckb_store::ChainStore;
+use ckb_types::core::BlockView;
+use ckb_types::packed::{Byte32, HeaderDigest};
+use ckb_types::prelude::*;
+use ckb_types::utilities::merkle_mountain_range::MergeHeaderDigest;
+use core19::{join, parse_list, record, term_of, RecMerge};
+use std::collections::HashMap;
 
-pub fn run(_opts: &Opts) {
-    eprintln!("C19: harness not implemented in this crate");
-    std::process::exit(2);
+/// carry-style chain root with a merge function (real or recording); records every partial bag
+fn spec_root<M: Merge<Item = HeaderDigest>>(ds: &[HeaderDigest]) -> Option<HeaderDigest> {
+    let mut mountains: Vec<(u32, HeaderDigest)> = vec![];
+    for d in ds {
+        let mut cur = (0u32, d.clone());
+        while let Some((h, _)) = mountains.last() {
+            if *h != cur.0 {
+                break;
+            }
+            let (_, left) = mountains.pop().unwrap();
+            cur = (cur.0 + 1, M::merge(&left, &cur.1).ok()?);
+        }
+        mountains.push(cur);
+    }
+    let mut acc = mountains.pop()?.1;
+    while let Some((_, left)) = mountains.pop() {
+        acc = M::merge(&left, &acc).ok()?;
+    }
+    Some(acc)
+}
+
+struct NSim {
+    node: Option<Node>,
+    builder: ChainBuilder,
+    /// id -> block
+    blocks: HashMap<u64, BlockView>,
+    by_hash: HashMap<Byte32, u64>,
+    /// hash-of-root -> term (for extension commitments)
+    hash_terms: HashMap<Vec<u8>, String>,
+    main: Vec<u64>,
+    reorgs: u64,
+}
+
+impl NSim {
+    fn new(base: &std::path::Path, epoch_len: u64) -> NSim {
+        let _ = std::fs::remove_dir_all(base);
+        let cfg = NodeCfg { epoch_len, window: (2, 4), with_pool: false, ..Default::default() };
+        let consensus = make_consensus(&cfg);
+        let node = Node::start(&base.join("node"), consensus.clone(), &cfg);
+        let builder = ChainBuilder::new(consensus.clone(), &base.join("builder"));
+        let g = builder.genesis();
+        let mut s = NSim { node: Some(node), builder, blocks: HashMap::new(), by_hash: HashMap::new(), hash_terms: HashMap::new(), main: vec![], reorgs: 0 };
+        s.by_hash.insert(g.hash(), 0);
+        record(&g.header().digest(), "L0".into());
+        s.blocks.insert(0, g);
+        s
+    }
+
+    fn node(&self) -> &Node {
+        self.node.as_ref().unwrap()
+    }
+
+    /// ids of the node's main chain, blocks 1..=tip
+    fn node_main(&self) -> Vec<u64> {
+        let snap = self.node().shared.snapshot();
+        let tip = snap.tip_header().number();
+        (1..=tip).map(|n| *self.by_hash.get(&snap.get_block_hash(n).expect("index")).expect("main-chain block unknown to the harness")).collect()
+    }
+
+    fn digests(&self, upto: usize) -> Vec<HeaderDigest> {
+        let mut v = vec![self.blocks[&0].header().digest()];
+        for id in &self.main[..upto] {
+            v.push(self.blocks[id].header().digest());
+        }
+        v
+    }
+
+    /// record the terms of all nodes / bags of the MMR over main-chain blocks 0..=n, return (real-merge root, its term)
+    fn expected_root(&mut self, n: u64) -> HeaderDigest {
+        let ds = self.digests(n as usize);
+        let rec = spec_root::<RecMerge>(&ds).expect("spec root");
+        let real = spec_root::<MergeHeaderDigest>(&ds).expect("spec root");
+        assert_eq!(rec.as_slice(), real.as_slice());
+        self.hash_terms.insert(real.calc_mmr_hash().as_slice().to_vec(), term_of(&real));
+        real
+    }
+
+    fn exec(&mut self, out: &mut Out, line: &str) {
+        let t: Vec<&str> = line.split_whitespace().collect();
+        let ans = match t[0] {
+            "blk" | "bad" => {
+                let id: u64 = t[1].parse().unwrap();
+                let parent: u64 = t[2].parse().unwrap();
+                let ph = self.blocks.get(&parent).expect("unknown parent").hash();
+                let spec = BlockSpec { salt: id, tweak: if t[0] == "bad" { Tweak::Extension } else { Tweak::None }, ..Default::default() };
+                let blk = self.builder.build(&ph, &spec);
+                assert_eq!(blk.number(), id % 10000, "id must encode the block number");
+                out.count(t[0]);
+                let r = self.node().process(&blk);
+                if t[0] == "blk" {
+                    record(&blk.header().digest(), format!("L{id}"));
+                    self.by_hash.insert(blk.hash(), id);
+                    self.blocks.insert(id, blk);
+                    match r {
+                        Ok(_) => "ok".to_string(),
+                        Err(e) => {
+                            out.oracle_fail("valid-block-rejected", &format!("{line}: {e}"));
+                            "rejected".into()
+                        }
+                    }
+                } else {
+                    // the parent is the tip, so this block would become the best chain and is fully verified
+                    assert_eq!(self.main.last().copied().unwrap_or(0), parent, "bad blocks are only offered on the tip");
+                    match r {
+                        Err(_) => "rejected".to_string(),
+                        Ok(_) => {
+                            out.oracle_fail("wrong-chain-root-accepted", line);
+                            "ok".into()
+                        }
+                    }
+                }
+            }
+            "main" => {
+                let ids = parse_list(t[1]);
+                let actual = self.node_main();
+                assert_eq!(ids, actual, "replayed main chain differs from the node's");
+                let common = self.main.iter().zip(&ids).take_while(|(a, b)| a == b).count();
+                if common < self.main.len() {
+                    self.reorgs += 1;
+                    out.count("reorg");
+                }
+                self.main = ids;
+                out.count("main");
+                let n = self.main.len() as u64;
+                self.root_line(out, line, n)
+            }
+            "rootat" => {
+                out.count("rootat");
+                self.root_line(out, line, t[1].parse().unwrap())
+            }
+            "ext" => {
+                let n: u64 = t[1].parse().unwrap();
+                out.count("ext");
+                let want = self.expected_root(n - 1);
+                let blk = &self.blocks[&self.main[n as usize - 1]];
+                let ext = blk.extension().expect("extension").raw_data();
+                if ext.len() < 32 || ext[..32] != want.calc_mmr_hash().as_slice()[..] {
+                    out.oracle_fail("extension-not-root-of-ancestors", line);
+                }
+                format!("ext {}", self.hash_terms.get(&ext[..32.min(ext.len())].to_vec()).cloned().unwrap_or("?".into()))
+            }
+            "proof" => {
+                let n: u64 = t[1].parse().unwrap();
+                let idxs = parse_list(t[2]);
+                out.count("proof");
+                let want = self.expected_root(n);
+                let snap = self.node().shared.snapshot();
+                let mmr = snap.chain_root_mmr(n);
+                match mmr.gen_proof(idxs.iter().map(|i| leaf_index_to_pos(*i)).collect()) {
+                    Ok(p) => {
+                        let ds = self.digests(n as usize);
+                        let mut set: Vec<u64> = idxs.clone();
+                        set.sort();
+                        set.dedup();
+                        let leaves: Vec<(u64, HeaderDigest)> = set.iter().map(|i| (leaf_index_to_pos(*i), ds[*i as usize].clone())).collect();
+                        if !matches!(p.verify(want.clone(), leaves.clone()), Ok(true)) {
+                            out.oracle_fail("served-proof-does-not-verify", line);
+                        }
+                        // and not against the root of the previous block's chain
+                        if n > 0 {
+                            let other = spec_root::<MergeHeaderDigest>(&ds[..n as usize]).unwrap();
+                            if matches!(p.verify(other, leaves), Ok(true)) {
+                                out.oracle_fail("proof-accepted-for-wrong-chain", line);
+                            }
+                        }
+                        format!("proof {} {}", p.mmr_size(), join(&p.proof_items().iter().map(term_of).collect::<Vec<_>>(), ";"))
+                    }
+                    Err(e) => {
+                        out.oracle_fail("proof-unavailable", &format!("{line}: {e:?}"));
+                        "err".into()
+                    }
+                }
+            }
+            _ => panic!("bad op {line}"),
+        };
+        out.op(line, &ans);
+    }
+
+    fn root_line(&mut self, out: &mut Out, line: &str, n: u64) -> String {
+        let want = self.expected_root(n);
+        let snap = self.node().shared.snapshot();
+        debug_assert_eq!(snap.chain_root_mmr(n).mmr_size(), leaf_index_to_mmr_size(n));
+        match snap.chain_root_mmr(n).get_root() {
+            Ok(r) => {
+                if r.as_slice() != want.as_slice() {
+                    out.oracle_fail("root-not-mmr-root-of-ancestors", &format!("{line}: chain_root_mmr({n})"));
+                }
+                format!("root {}", term_of(&r))
+            }
+            Err(e) => {
+                out.oracle_fail("root-unavailable", &format!("{line}: {e:?}"));
+                "err".into()
+            }
+        }
+    }
+
+    fn finish(mut self) {
+        if let Some(n) = self.node.take() {
+            n.stop();
+        }
+        self.builder.cleanup();
+    }
+}
+
+fn gen_case(out: &mut Out, rng: &mut Rng, base: &std::path::Path, n_blocks: usize) {
+    let epoch_len = *rng.pick(&[3u64, 4, 7, 10]);
+    out.begin_case(&format!("node epoch_len={epoch_len}"));
+    let mut sim = NSim::new(base, epoch_len);
+    let mut uniq = 0u64;
+    let mut known: Vec<u64> = vec![0];
+    let mut focus: u64 = 0; // the branch currently being extended
+    for _ in 0..n_blocks {
+        // where to build: mostly on the focus branch; sometimes start a fork at an older block
+        // (biased to tip-1, tip-2, powers of two, genesis)
+        if rng.chance(1, 6) {
+            let tipn = sim.main.len() as u64;
+            let at = match rng.below(5) {
+                0 => tipn.saturating_sub(1),
+                1 => tipn.saturating_sub(2),
+                2 => { let mut p = 1; while p * 2 <= tipn { p *= 2; } p.min(tipn) }
+                3 => 0,
+                _ => rng.below(tipn + 1),
+            };
+            focus = if at == 0 { 0 } else { sim.main[at as usize - 1] };
+        } else if rng.chance(1, 10) {
+            focus = *rng.pick(&known);
+        }
+        let number = focus % 10000 + 1;
+        uniq += 1;
+        let id = uniq * 10000 + number;
+        if rng.chance(1, 8) && focus == sim.main.last().copied().unwrap_or(0) {
+            uniq += 1;
+            sim.exec(out, &format!("bad {} {focus}", uniq * 10000 + number));
+        }
+        sim.exec(out, &format!("blk {id} {focus}"));
+        known.push(id);
+        focus = id;
+        let main = sim.node_main();
+        if main != sim.main {
+            sim.exec(out, &format!("main {}", join(&main, ",")));
+            let tip = main.len() as u64;
+            sim.exec(out, &format!("ext {tip}"));
+            if rng.chance(1, 2) {
+                sim.exec(out, &format!("rootat {}", rng.below(tip + 1)));
+            }
+            if rng.chance(1, 2) {
+                let n = if rng.chance(1, 2) { tip } else { rng.below(tip + 1) };
+                let k = rng.range(1, 3);
+                let idxs: Vec<u64> = (0..k).map(|_| rng.below(n + 1)).collect();
+                sim.exec(out, &format!("proof {n} {}", join(&idxs, ",")));
+            }
+            if rng.chance(1, 4) && tip > 1 {
+                sim.exec(out, &format!("ext {}", rng.range(1, tip)));
+            }
+        }
+    }
+    if sim.reorgs > 0 {
+        out.nontrivial(format!("{epoch_len}:{:?}", sim.main));
+    }
+    sim.finish();
+}
+
+pub fn run(opts: &Opts) {
+    let mut out = Out::new(&opts.out);
+    let mut rng = Rng::new(opts.seed);
+    let base = scratch_dir(&opts.out, "c19");
+    if let Some(p) = &opts.replay {
+        let ops = read_replay_ops(p);
+        let mut sim: Option<NSim> = None;
+        let mut skip = true;
+        for line in &ops {
+            let t: Vec<&str> = line.split_whitespace().collect();
+            if t[0] == "case" {
+                if let Some(s) = sim.take() {
+                    s.finish();
+                }
+                let label = t[2..].join(" ");
+                skip = !label.starts_with("node");
+                if skip {
+                    continue;
+                }
+                out.begin_case(&label);
+                let epoch_len = label.split("epoch_len=").nth(1).and_then(|s| s.split_whitespace().next()).and_then(|s| s.parse().ok()).unwrap_or(4);
+                sim = Some(NSim::new(&base, epoch_len));
+            } else if !skip {
+                sim.as_mut().expect("case line first").exec(&mut out, line);
+            }
+        }
+        if let Some(s) = sim.take() {
+            s.finish();
+        }
+    } else {
+        let (cases, blocks) = if opts.thorough() { (60 * opts.scale, 70) } else { (8 * opts.scale, 45) };
+        for _ in 0..cases {
+            gen_case(&mut out, &mut rng, &base, blocks);
+        }
+    }
+    let _ = std::fs::remove_dir_all(&base);
+    out.finish("a real node (chain service + RocksDB) fed valid blocks built on arbitrary known parents (forks from tip-1, tip-2, powers of two, genesis; branches overtaking each other; epoch lengths 3..10), plus blocks whose committed chain root has one bit flipped; after every main-chain change: Snapshot::chain_root_mmr(n).get_root() for the tip and earlier blocks, the extension of main-chain blocks, gen_proof + verify against the right and a wrong root; non-trivial iff the main chain was reorganised at least once; distinct by final main chain");
 }
